@@ -84,6 +84,12 @@ type Run struct {
 	Sites       []string // lock-site inventory of the current tree (sorted)
 	Known       string
 	Desc        string
+
+	// two-pass (differential) scenarios: pass 1 sets WantSecond, pass 2 finds the first run in Other
+	Pass       int
+	WantSecond bool
+	Other      *Run
+	Aux        []string
 }
 
 func newRun(t *Tape) *Run {
@@ -183,6 +189,14 @@ func (r *Run) releaseHold(h *Hold) {
 func (r *Run) ReleaseHolds() {
 	for _, h := range r.Holds {
 		r.releaseHold(h)
+	}
+}
+
+// DisableHolds releases every held goroutine and makes sure no further hold fires.
+func (r *Run) DisableHolds() {
+	r.ReleaseHolds()
+	for _, h := range r.Holds {
+		h.Done = true
 	}
 }
 
